@@ -589,3 +589,142 @@ def run(rep, programs):  # noqa: F811
     from props import c08
     c08.r_check_dom(rep, programs["core"])
     c08.r_check_guards(rep, programs["core"])
+
+
+def r_huge_coord(rep, prog):
+    """The huge entries are addressed as (tree, index in tree) - `self.children(T)[L]` - and the bitfields by a global huge index -
+    `self.bitfield(H)`. Counter and bits of one huge frame are only kept in step if H = T * TREE_HUGE + L wherever a function
+    uses both."""
+    rule = "R-HUGE-COORD"
+    rep.rule(rule, "Lower: a bitfield selected next to a huge entry children(T)[L] is the bitfield of that entry: H = as_huge(x) with "
+                   "T = as_tree(x), L = child index of as_huge(x); or H = first huge frame of T + L")
+    th = prog.crate("llfree").const("llfree::TREE_HUGE")
+    as_huge = ("llfree::FrameId::as_huge", "llfree::bitfield::RowId::as_huge")
+    as_tree = ("llfree::FrameId::as_tree", "llfree::bitfield::RowId::as_tree")
+
+    def is_call(t, names):
+        return isinstance(t, tuple) and len(t) == 3 and t[0] == "call" and t[1] in names
+
+    def strip(t):
+        while isinstance(t, tuple) and t and t[0] in ("&", "cast", "deref"):
+            t = t[1]
+        return t
+
+    def field0(t):
+        return t[1] if isinstance(t, tuple) and len(t) == 3 and t[0] == "f" and t[2] == 0 else t
+
+    def unwrap_huge(t):
+        if t[0] == "agg" and t[1].startswith("adt:llfree::lower::HugeId") and len(t[2]) == 1:
+            return t[2][0]
+        if t[0] == "f" and t[2] == 0:
+            return t
+        return t
+
+    def local_of(l):
+        """l = tree-local index of as_huge(X) -> X"""
+        if is_call(l, ("llfree::lower::HugeId::child_idx",)) and is_call(l[2][0], as_huge):
+            return l[2][0][2][0]
+        if l[0] == "bin" and l[1] == "Rem" and l[3] == ("c", th) and is_call(field0(l[2]), as_huge):
+            return field0(l[2])[2][0]
+        return None
+
+    def tree_base(t):
+        t = field0(t)
+        if is_call(t, as_huge) and is_call(t[2][0], ("llfree::trees::TreeId::as_frame",)):
+            return t[2][0][2][0]
+        if t[0] == "bin" and t[1] == "Mul":
+            for a, b in ((t[2], t[3]), (t[3], t[2])):
+                if a == ("c", th):
+                    return field0(b)
+        return None
+
+    def entry_coord(x):
+        base, l = strip(x[1]), x[2]
+        if not is_call(base, ("llfree::lower::Lower::children",)):
+            return None
+        tt = base[2][1]
+        xx = local_of(l)
+        if xx is not None and is_call(tt, as_tree) and tt[2][0] == xx:
+            return ("of", xx)
+        return ("tl", tt, l)
+
+    def decomp(h, locals_):
+        if is_call(h, as_huge):
+            x = h[2][0]
+            if x[0] == "agg" and x[1].startswith("adt:llfree::FrameId") and x[2] and x[2][0][0] == "bin" and x[2][0][1] == "Add":
+                for a, b in ((x[2][0][2], x[2][0][3]), (x[2][0][3], x[2][0][2])):
+                    a, b = field0(a), field0(b)
+                    if is_call(a, ("llfree::lower::HugeId::as_frame",)) and is_call(b, ("llfree::trees::TreeId::as_frame",)):
+                        return ("tl", b[2][0], unwrap_huge(a[2][0]))
+            return ("of", x)
+        parts = None
+        if is_call(h, ("<llfree::lower::HugeId as core::ops::arith::Add>::add",)):
+            parts = h[2]
+        elif h[0] == "agg" and h[1].startswith("adt:llfree::lower::HugeId") and len(h[2]) == 1:
+            inner = h[2][0]
+            if inner[0] == "bin" and inner[1] == "Add":
+                parts = (inner[2], inner[3])
+            elif inner in locals_ or local_of(inner) is not None or (inner[0] == "bin" and inner[1] == "Rem" and inner[3] == ("c", th)):
+                return ("local", inner)
+        if parts:
+            for a, b in ((parts[0], parts[1]), (parts[1], parts[0])):
+                tt = tree_base(a)
+                if tt is not None:
+                    return ("tl", tt, unwrap_huge(b))
+        return None
+
+    n = 0
+    crate = prog.crate("llfree")
+    for name, b in sorted(crate.bodies.items()):
+        if not name.startswith("llfree::lower::Lower::") or b.kind == "closure":
+            continue
+        entries, sels = [], []
+        for bb in [b] + list(crate.closures_of(name)):
+            tm = T.Terms(bb, prog)
+            for bi, t in bb.calls():
+                cn = callee_name(t["callee"])
+                for a in t["args"]:
+                    term = tm.operand(a)
+                    if bb.kind == "closure":
+                        term = lib.resolve_upvars(prog, bb, term)
+                    for x in T.walk(term):
+                        if x[0] == "idx":
+                            e = entry_coord(T.canon(x))
+                            if e is not None and e not in entries:
+                                entries.append(e)
+                if cn == "llfree::lower::Lower::bitfield":
+                    term = tm.operand(t["args"][1])
+                    if bb.kind == "closure":
+                        term = lib.resolve_upvars(prog, bb, term)
+                    sels.append((T.canon(term), t["span"]))
+        if not sels or not entries:
+            continue
+        rep.saw(name)
+        short = name.rsplit("::", 1)[1]
+        locals_ = {e[2] for e in entries if e[0] == "tl"}
+        for h, span in sels:
+            d = decomp(h, locals_)
+            if d is None:
+                rep.check(True, rule, "%s|bitfield-of-entry" % short, "undecided: selector form not recognised (%s)" % str(h)[:100])
+                rep.note("%s: bitfield selector in %s has an unrecognised form; agreement with the huge entry is undecided" % (rule, short))
+                continue
+            if d[0] == "local":
+                rep.violation(rule, "%s|bitfield-of-entry" % short,
+                              "the bitfield is selected with the index of the entry inside its tree; bitfields are indexed by the "
+                              "global huge frame number (tree * TREE_HUGE + index), so outside tree 0 counter and bits belong to "
+                              "different huge frames", span)
+                continue
+            ok = d in entries
+            n += ok
+            rep.check(ok, rule, "%s|bitfield-of-entry" % short, "bitfield selector and children(T)[L] name the same huge frame",
+                      "the bitfield selector and the huge entry used next to it do not name the same huge frame "
+                      "(selector %s, entries %s)" % (str(d)[:160], str(entries)[:200]), span)
+    rep.floor(rule, "bitfield selectors agreeing with the entry used next to them", n, 4)
+
+
+_run5 = run
+
+
+def run(rep, programs):  # noqa: F811
+    _run5(rep, programs)
+    r_huge_coord(rep, programs["core"])
